@@ -77,3 +77,14 @@ def op_corpus_codes(c):
                 if iscode(cst):
                     stack.append(cst)
     return out
+
+
+def op_stack_effect(c):
+    """c = {table, op, arg}"""
+    from xdis.cross_dis import xstack_effect
+    opc = table(c["table"])
+    try:
+        r = xstack_effect(c["op"], opc, c["arg"])
+    except Exception as e:
+        return errobs(e)
+    return [0] + opt(r)
